@@ -46,6 +46,8 @@ struct _map_itr {
     m_map_t *m;
     map_elem *curr;
     bool removed;
+    size_t start;       // slot where the scan started: first slot after an empty one
+    size_t scanned;     // number of slots scanned so far
 };
 
 static map_elem *hashmap_entry_find(const m_map_t *m, const char *key, bool find_empty);
@@ -55,6 +57,7 @@ static size_t hashmap_hash_string(const char *key);
 static int hashmap_rehash(m_map_t *m);
 static int hashmap_put(m_map_t *m, const char *key, void *value, bool *key_stored);
 static void clear_elem(m_map_t *m, map_elem *entry);
+static size_t hashmap_scan_start(const m_map_t *m);
 
 /*
  * Find the hashmap entry with the specified key, or an empty slot.
@@ -247,6 +250,24 @@ static void clear_elem(m_map_t *m, map_elem *removed_entry) {
     memset(removed_entry, 0, sizeof(map_elem));
 }
 
+/*
+ * Iteration that supports removal of the current entry must not start in the
+ * middle of a probe chain: removing an entry shifts back the following entries
+ * of its chain, and if the chain wraps around the end of the table, entries that
+ * were already visited at the beginning of the table would be moved to its end
+ * and visited again.
+ * Start right after an empty slot (one always exists, given the load factor)
+ * and scan the whole table circularly from there.
+ */
+static size_t hashmap_scan_start(const m_map_t *m) {
+    for (size_t i = m->table_size; i > 0; i--) {
+        if (!m->table[i - 1].key) {
+            return MAP_SIZE_MOD(m, i);
+        }
+    }
+    return 0;
+}
+
 /** Public API **/
 
 /*
@@ -276,6 +297,7 @@ _public_ m_map_itr_t *m_map_itr_new(const m_map_t *m) {
     m_map_itr_t *itr = memhook._calloc(1, sizeof(m_map_itr_t));
     if (itr) {
         itr->m = (m_map_t *)m;
+        itr->start = hashmap_scan_start(m);
         m_map_itr_next(&itr);
     }
     return itr;
@@ -285,17 +307,15 @@ _public_ int m_map_itr_next(m_map_itr_t **itr) {
     M_PARAM_ASSERT(itr && *itr);
     
     m_map_itr_t *i = *itr;
-    if (!i->curr) {
-        /* First time: start from first elem */
-        i->curr = &i->m->table[0];
-    } else {
-        /* Normally: start from subsequent element */
-        i->curr = i->curr + 1 - i->removed;
+    if (i->curr && !i->removed) {
+        /* Normally: start from subsequent slot; after a removal, look at the same slot again */
+        i->scanned++;
     }
     
     i->removed = false;
     bool found = false;
-    for (; i->curr < &i->m->table[i->m->table_size]; i->curr++) {
+    for (; i->scanned < i->m->table_size; i->scanned++) {
+        i->curr = &i->m->table[MAP_SIZE_MOD(i->m, i->start + i->scanned)];
         if (i->curr->key) {
             found = true;
             break;
@@ -389,7 +409,9 @@ _public_ int m_map_iterate(const m_map_t *m, m_map_cb fn, void *userptr) {
     M_PARAM_ASSERT(fn);
     M_PARAM_ASSERT(m_map_len(m) > 0);
     
-    MAP_FOREACH(m->table, m->table_size, {
+    const size_t start = hashmap_scan_start(m);
+    for (size_t scanned = 0; scanned < m->table_size; scanned++) {
+        map_elem *entry = &m->table[MAP_SIZE_MOD(m, start + scanned)];
         if (!entry->key) {
             continue;
         }
@@ -406,12 +428,12 @@ _public_ int m_map_iterate(const m_map_t *m, m_map_cb fn, void *userptr) {
         }
         if (entry->key != key) {
             /* Run this entry again if fn() deleted it */
-            --entry;
+            --scanned;
         } else if (num_entries != m->length) {
             /* Stop immediately if fn put/removed another entry */
             return -EACCES;
         }
-    });
+    }
     return 0;
 }
 
